@@ -58,6 +58,9 @@ ENV_BASE.update({"CARGO_NET_OFFLINE": "true", "CARGO_TERM_COLOR": "never"})
 VARIANTS = {
     "std-debug": dict(toolchain=None, profile="dev", features="interpose", rustflags=GUARD),
     "std-release": dict(toolchain=None, profile="release", features="interpose", rustflags=GUARD),
+    # the two "mixed" configurations of (debug assertions, overflow checks)
+    "std-release-ovf": dict(toolchain=None, profile="release", features="interpose", rustflags=GUARD + " -Coverflow-checks=on"),
+    "std-debug-wrap": dict(toolchain=None, profile="dev", features="interpose", rustflags=GUARD + " -Coverflow-checks=off"),
     "xen-debug": dict(toolchain=None, profile="dev", features="xen,interpose", rustflags=GUARD),
     "xen-release": dict(toolchain=None, profile="release", features="xen,interpose", rustflags=GUARD),
     "asan": dict(toolchain="nightly", profile="dev", features="", target=TARGET,
